@@ -5,9 +5,9 @@ import TTV.Drv.C12
 /-! Driver glue for C13: codecs between S-expressions and `Conc.SInput` / `Conc.STrace`.
 
 input  = `(flavour workers mkRaise intr mfaults tb sched)`, flavour = `suite`|`stream`,
-         worker = `(tests boom faults)`, test = `(kind (tag…))`, mkRaise/intr = `none`|`(some n)`
+         worker = `(tests boom faults)`, test = `(kind (tag…))` | `(kind (tag…) ((id kind tags omitted|explicitNone|(given n))…))`, mkRaise/intr = `none`|`(some n)`
 trace  = `(log sink result spawned joined live runs flags died finished)`
-         sink entry = `((w id kind) hasTimestamp raised)`, kind = `(st <status>)` | `(file T|F)`,
+         sink entry = `((w id kind tags instant) hasTimestamp raised)`, tags/instant = `none`|`(some …)`, kind = `(st <status>)` | `(file T|F)`,
          result = `none` | `returned` | `(raised interrupt|makeTests|injected)`; `log` as in C12 -/
 namespace TTV.Drv.C13
 open TTV TTV.Sexp TTV.Conc TTV.Drv.C12
@@ -15,8 +15,36 @@ open TTV TTV.Sexp TTV.Conc TTV.Drv.C12
 def flavour? : Sexp → Option Flavour
   | .atom "suite" => some .suite | .atom "stream" => some .stream | _ => none
 
+def status? : Sexp → Option Status
+  | .atom "inprogress" => some .inprogress | .atom "success" => some .success | .atom "fail" => some .fail
+  | .atom "skip" => some .skip | .atom "xfail" => some .xfail | .atom "uxsuccess" => some .uxsuccess
+  | .atom "exists" => some .exists | _ => none
+def ofStatus : Status → Sexp
+  | .inprogress => .atom "inprogress" | .success => .atom "success" | .fail => .atom "fail"
+  | .skip => .atom "skip" | .xfail => .atom "xfail" | .uxsuccess => .atom "uxsuccess" | .exists => .atom "exists"
+
+def skind? : Sexp → Option SKind
+  | .list [.atom "st", s] => (status? s).map .st
+  | .list [.atom "file", b] => (bool? b).map .file
+  | _ => none
+def ofSkind : SKind → Sexp
+  | .st s => tag "st" [ofStatus s]
+  | .file b => tag "file" [ofBool b]
+
+def tsMode? : Sexp → Option TsMode
+  | .atom "omitted" => some .omitted
+  | .atom "explicitNone" => some .none
+  | .list [.atom "given", n] => (nat? n).map .given
+  | _ => none
+
+def nev? : Sexp → Option NEv
+  | .list [i, k, tags, ts] => do some { id := ← nat? i, kind := ← skind? k, tags := ← opt? (list? nat?) tags, ts := ← tsMode? ts }
+  | _ => none
+
+/-- `(kind (tag…))` = a TestResult-API test; `(kind (tag…) (event…))` = a native stream emitter -/
 def wtest? : Sexp → Option WTest
   | .list [k, tags] => do some { kind := ← kind? k, tags := ← list? nat? tags }
+  | .list [k, tags, evs] => do some { kind := ← kind? k, tags := ← list? nat? tags, native := some (← list? nev? evs) }
   | _ => none
 
 def worker? : Sexp → Option Worker
@@ -29,25 +57,11 @@ def input? : Sexp → Option SInput
              mfaults := ← list? nat? mf, tb := ← nat? tb, sched := ← list? nat? sched }
   | _ => none
 
-def status? : Sexp → Option Status
-  | .atom "inprogress" => some .inprogress | .atom "success" => some .success | .atom "fail" => some .fail
-  | .atom "skip" => some .skip | .atom "xfail" => some .xfail | .atom "uxsuccess" => some .uxsuccess | _ => none
-def ofStatus : Status → Sexp
-  | .inprogress => .atom "inprogress" | .success => .atom "success" | .fail => .atom "fail"
-  | .skip => .atom "skip" | .xfail => .atom "xfail" | .uxsuccess => .atom "uxsuccess"
-
-def skind? : Sexp → Option SKind
-  | .list [.atom "st", s] => (status? s).map .st
-  | .list [.atom "file", b] => (bool? b).map .file
-  | _ => none
-def ofSkind : SKind → Sexp
-  | .st s => tag "st" [ofStatus s]
-  | .file b => tag "file" [ofBool b]
-
 def sev? : Sexp → Option SEv
-  | .list [w, i, k] => do some { w := ← nat? w, id := ← tid? i, kind := ← skind? k }
+  | .list [w, i, k, tags, ts] => do
+      some { w := ← nat? w, id := ← tid? i, kind := ← skind? k, tags := ← opt? (list? nat?) tags, ts := ← opt? nat? ts }
   | _ => none
-def ofSev (e : SEv) : Sexp := .list [ofNat e.w, ofTid e.id, ofSkind e.kind]
+def ofSev (e : SEv) : Sexp := .list [ofNat e.w, ofTid e.id, ofSkind e.kind, ofOpt (ofList ofNat) e.tags, ofOpt ofNat e.ts]
 
 def cause? : Sexp → Option Cause
   | .atom "interrupt" => some .interrupt | .atom "makeTests" => some .makeTests | .atom "injected" => some .injected | _ => none
